@@ -255,13 +255,14 @@ PROPS = {
     ),
     "C19": dict(
         functions=[CS + "CorpusShufflingTool.corpus_from_reference#names", CS + "CorpusShufflingTool.corpus_from_reference#count",
-                   CS + "CorpusShufflingTool.false_neg_shuffle", CS + "CorpusShufflingTool.shift_shuffle", CT + "Continuum.__getitem__#annotator"]
+                   CS + "CorpusShufflingTool.false_neg_shuffle", CS + "CorpusShufflingTool.shift_shuffle", CS + "CorpusShufflingTool.splits_shuffle", CT + "Continuum.__getitem__#annotator"]
                   + [CT + "Continuum." + m for m in ("__init__", "add", "remove", "iter_annotator", "annotators", "bounds")] + [CT + "Unit.__lt__"],
         oracles=[CS + "CorpusShufflingTool.corpus_shuffle"],
         bounded=[dict(oracle=CS + "CorpusShufflingTool.corpus_shuffle",
                       what="shift_shuffle is proved at the set level (every unit is an old unit of the same annotator moved by at most shift_max, label "
-                           "kept; nothing at magnitude 0); its COUNT clause needs the genericity hypothesis G and is bounded. false-positive / "
-                           "category / split shuffles, corpus_shuffle and __init__ are not under contract: seeded runs "
+                           "kept; nothing at magnitude 0) and so is splits_shuffle (every unit lies inside an old unit of the same annotator, label kept); "
+                           "their COUNT / total-duration clauses need the genericity hypothesis G and are bounded. false-positive / category "
+                           "shuffles, corpus_shuffle and __init__ are not under contract: seeded runs "
                            "on random single-annotator references, magnitudes 0 / 0.2 / 0.5 / 1, names or counts, every flag alone and random "
                            "combinations, include_ref: annotator set, non-emptiness, positive durations, categories, magnitude-0 identity and "
                            "the confinement clause of the single active perturbation")],
@@ -271,7 +272,7 @@ PROPS = {
                      "(no unit added for that announced split): a draw of measure ~1e-6/length, read in the code, not reproduced by the bounded runs",
                      "the amount of perturbation per magnitude (statistical)"],
         trusted=S_COMMON + ["model: random generators (support only)", "model: sortedcontainers / deepcopy / f-string with one integer hole",
-                            "class constant SHIFT_FACTOR == 2 (read from the class body, a requires of shift_shuffle)",
+                            "class constants SHIFT_FACTOR == 2, SPLIT_FACTOR == 2.5 (read from the class body, requires of the two shuffles)",
                             "Continuum.avg_length_unit assumed positive on a continuum with a valid unit"],
     ),
     "C10": dict(
